@@ -32,4 +32,16 @@ def main():
     except RP.FormatError:
         pass
     assert RP.ulp_of(' 1.2345670e-03') == 1e-10 and RP.ulp_of('0.50000000') == 1e-8
+    # engine: a worker that dies once (transient) costs nothing but a retry; a case that always kills its worker is reported, the rest is executed
+    import os
+    from . import engine
+    from .checks import _poolprobe
+    for f in os.listdir('/dev/shm'):
+        if f.startswith('verif-poolprobe-'):
+            os.remove(os.path.join('/dev/shm', f))
+    _m, cases, results, _s = engine.explore('mc.checks._poolprobe', 'quick', 0)
+    assert all(r is not None for r in results) and [r['index'] for r in results if r.get('outcome') == 'worker-died'] == [301], 'pool recovery'
+    for f in os.listdir('/dev/shm'):
+        if f.startswith('verif-poolprobe-'):
+            os.remove(os.path.join('/dev/shm', f))
     print('selftest ok')
